@@ -120,14 +120,6 @@ def exactly_representable(q: Fraction) -> bool:
         return False
 
 
-def num(s):
-    """number stored in a case file: int, or "n/d" string -> python int/float (exact dyadic)"""
-    if isinstance(s, (int, float)):
-        return s
-    q = Fraction(s)
-    return int(q) if q.denominator == 1 and "/" not in s and "." not in s else float(q)
-
-
 def fl(q: Fraction) -> float:
     x = float(q)
     if Fraction(x) != q:
@@ -215,7 +207,7 @@ def gen_mutate1(rng: random.Random) -> dict:
         v = dy()                                            # anywhere
     if dt == "i" and rng.random() < 0.8:
         v = Fraction(py_trunc(v))
-    sh = rng.choice(SMALL_SHRINK + [Fraction(4, 5).limit_denominator(1), Fraction(1), Fraction(0), Fraction(-1, 2), Fraction(5, 4)]
+    sh = rng.choice(SMALL_SHRINK + [Fraction(1), Fraction(0), Fraction(-1, 2), Fraction(5, 4)]
                     if rng.random() < 0.2 else SMALL_SHRINK)
     gr = rng.choice(SMALL_GROW + [Fraction(1), Fraction(3, 4), Fraction(-2), Fraction(0)]
                     if rng.random() < 0.2 else SMALL_GROW)
@@ -373,7 +365,6 @@ def build_population(case: dict):
     if case.get("via") == "population":
         import agilerl.algorithms as algs
         cls = getattr(algs, algo)
-        kw = {n.lower(): init[k] for n, k in INIT_KEY.items() if n in ALGOS[algo]["floats"] + ALGOS[algo]["ints"]}
         kw = {n: init[INIT_KEY[n]] for n in ALGOS[algo]["floats"] + ALGOS[algo]["ints"]}
         if ALGOS[algo]["ma"]:
             kw["agent_ids"] = init["AGENT_IDS"]
@@ -497,8 +488,10 @@ def run_case(case: dict):
         problems.append(f"registry lists hyperparameters {cfg_names}, configured {names}")
     opt_attrs = [oc.name for oc in reg.optimizers]
     lr_names = [oc.lr for oc in reg.optimizers]
-    if dict(zip(opt_attrs, lr_names)) != table and not case.get("same_object_lrs"):
-        problems.append(f"registry optimizers {list(zip(opt_attrs, lr_names))} differ from the constructor's {table}")
+    for o, l in zip(opt_attrs, lr_names):
+        if o in table and table[o] != l:
+            problems.append(f"registry optimizers: {o} is registered on learning rate {l!r}, the constructor builds it "
+                            f"from {table[o]!r}")
     extras = [n for n in dict.fromkeys(lr_names) if n not in names]
     all_names = names + extras
     model.append("hpmut cfg %d " % len(hps) + " ".join(
@@ -726,7 +719,8 @@ def probe_lr_identity(chk: Check) -> None:
     """specific analysed defect: OptimizerWrapper infers the lr attribute name by object identity"""
     diff, problems, tags, impl, model_out, trace = one_case(chk, LR_IDENTITY_CASE)
     chk.case(["lr-identity"], nontrivial=True, tags=["probe-lr-identity"])
-    stale = [p for p in problems if "optimizer not updated" in p or "steps" in p or "registry optimizers" in p]
+    stale = [p for p in problems if "registry optimizers" in p] + \
+            [p for p in problems if "optimizer not updated" in p or "steps" in p]
     if stale:
         chk.finding("C06-lr-name-by-identity", stale[0],
                     {"suite": "population", **LR_IDENTITY_CASE, "oracle_problems": problems, "impl": impl,
@@ -860,9 +854,6 @@ def selftest(chk: Check) -> None:
         reg.RLParameter.mutate = orig_mutate
 
     # (2) int cast rounds instead of truncating (63 * 3/4 = 47.25 -> 47, 63 * 5/4 = 78.75 -> 79 vs 78)
-    def rounding(self):
-        v = orig_mutate(self)
-        return v
     def round_mutate(self):
         f = self.shrink_factor if torch.rand(1).item() < 0.5 else self.grow_factor
         nv = min(max(self.value * f, self.min), self.max)
